@@ -147,9 +147,24 @@ def pNode : Nat → P Node
       pure (Node.mk name attrs sc (mkItems items), ts)
     | _ => none
 
-def pOptNode (fuel : Nat) : P (Option Node) := fun ts => match ts with
+/-- misc items around the root: `I<k> (t|o)*` -/
+def pMisc : P Items := fun ts => do
+  let (ni, ts) ← pCount 'I' ts
+  let (items, ts) ← pRep (fun ts => match ts with
+    | "t" :: ts => some (some (Sum.inr false : Sum Node Bool), ts)
+    | "o" :: ts => some (none, ts)
+    | _ => none) ni ts
+  pure (mkItems items, ts)
+
+/-- `-` or `DOC <misc> <node> <misc>` -/
+def pOptDoc (fuel : Nat) : P (Option Doc) := fun ts => match ts with
   | "-" :: ts => some (none, ts)
-  | _ => (pNode fuel ts).map fun (n, ts) => (some n, ts)
+  | "DOC" :: ts => do
+    let (pre, ts) ← pMisc ts
+    let (root, ts) ← pNode fuel ts
+    let (post, ts) ← pMisc ts
+    pure (some ⟨pre, root, post⟩, ts)
+  | _ => none
 
 /-- implementation result: `OK <tree>` or `ER <display>` -/
 def pResult (fuel : Nat) : P (Except Name Elem) := fun ts => match ts with
